@@ -108,10 +108,15 @@ func monitorVal(rep *Report, r *ValRun) valMonResult {
 	if r.Dead() {
 		return res
 	}
-	taint := ""
+	taint := ""     // a known-bad plan situation has produced a failure earlier in this case
+	stepTaint := "" // the plan executing in this very step is in a known-bad situation
 	viol := func(step int, sig, what string) {
 		if taint != "" {
 			sig = taint
+		} else if stepTaint != "" {
+			sig = stepTaint
+			taint = stepTaint
+			res.PlanSig[stepTaint]++
 		}
 		// known-finding signatures must not crowd real violations out of the report (cap 20)
 		if knownValSigs[sig] {
@@ -139,6 +144,12 @@ func monitorVal(rep *Report, r *ValRun) valMonResult {
 			kind = op.Kind
 		}
 		rep.Hist(kind + ":" + s.Verdict)
+		stepTaint = ""
+		if kind == "end" {
+			if pl, has := plans[uint64(op.H)]; has {
+				stepTaint = classifyPlan(prev, pl)
+			}
+		}
 		// ---- every step ----
 		if i > 0 && s.Verdict == "ERR" && !sameState(prev, s) {
 			viol(i, "C13:error-changed-state", kind+" failed but changed state")
@@ -248,16 +259,9 @@ func monitorVal(rep *Report, r *ValRun) valMonResult {
 			}
 		case "end", "genesis":
 			if s.Verdict != "OK" {
-				if pl, has := plans[uint64(op.H)]; has {
+				if _, has := plans[uint64(op.H)]; has {
 					res.PlanRuns++
-					sig := classifyPlan(prev, pl)
-					if sig == "" {
-						sig = "C14:plan-failed"
-					} else {
-						res.PlanSig[sig]++
-						taint = sig
-					}
-					viol(i, sig, "EndBlocker failed at the plan height: "+s.Err)
+					viol(i, "C14:plan-failed", "EndBlocker failed at the plan height: "+s.Err)
 				} else {
 					viol(i, "C13:end-block-failed", "EndBlocker failed: "+s.Err)
 				}
@@ -315,17 +319,10 @@ func monitorVal(rep *Report, r *ValRun) valMonResult {
 						pl.Op, pl.Key, s.Vals, s.Eng, s.Acc, strsEq(s.Execs, pl.Execs)))
 				}
 				if len(problems) > 0 {
-					sig := classifyPlan(prev, pl)
-					if sig == "" {
-						sig = "C14:plan-failed"
-					} else {
-						res.PlanSig[sig]++
-						taint = sig
-					}
 					for _, p := range problems {
-						viol(i, sig, p)
+						viol(i, "C14:plan-failed", p)
 					}
-				} else {
+				} else if stepTaint == "" {
 					res.PlanGood++
 				}
 				break
